@@ -39,6 +39,9 @@ def arith(ip, opn, a, b):
             if m is None:
                 raise Unsupported(f"arithmetic on {s.cls}")
             return m(ip, opn, a, b)
+    for s_ in (a, b):
+        if isinstance(s_, Sym) and s_.schema and getattr(C.SCHEMAS[s_.schema], "arith", None):
+            return C.SCHEMAS[s_.schema].arith(ip, opn, a, b)
     if is_enum(a):
         a = ip.vc.concretize(a)
     if is_enum(b):
@@ -896,10 +899,7 @@ def symstr_method(ip, s, name, args, kwargs):
     t = s.t
     if name == "isdigit" or name == "isnumeric":
         # exact on ASCII strings (assumption: index names / LaTeX are ASCII)
-        k = ip.vc.fresh_int("c")
-        return wrap(z3.And(z3.Length(t) > 0, z3.ForAll(
-            [k], z3.Implies(z3.And(k >= 0, k < z3.Length(t)),
-                            is_digit_char(z3.SubString(t, k, 1))))))
+        return wrap(z3.InRe(t, z3.Plus(z3.Range("0", "9"))))
     if name == "startswith":
         return wrap(z3.PrefixOf(term(args[0]), t))
     if name == "endswith":
@@ -1203,6 +1203,8 @@ def b_str(ip, args, kwargs):
 
 def b_int(ip, args, kwargs):
     v = args[0]
+    if isinstance(v, Struct) and (v.cls, "__int__") in C.STRUCT_METHODS:
+        return C.STRUCT_METHODS[(v.cls, "__int__")](ip, v, [], {})
     if isinstance(v, bool):
         return int(v)
     if isinstance(v, int):
